@@ -36,7 +36,8 @@ Inductive vroute :=
 Inductive vreduce := RMax | RMin.
 Inductive red_route :=
   | RedMaterialised (r : vreduce)   (* return np.array(self).<r>(...) with the caller's arguments *)
-  | RedApplyGrid (r : vreduce).     (* return self._apply_scale(self.array.<r>(...)) *)
+  | RedApplyGrid (r : vreduce)      (* return self._apply_scale(self.array.<r>()) : no argument reaches the grid *)
+  | RedApplyGridArgs (r : vreduce). (* return self._apply_scale(self.array.<r>(...)) : the caller's arguments applied to the grid *)
 (* SubFieldView._do_comparison *)
 Inductive cmp_guard :=
   | GuardIntNotBool                 (* isinstance(value, (int, np.integer)) and not isinstance(value, (bool, np.bool_)) *)
@@ -50,6 +51,11 @@ Inductive gi_branch :=
   | GiPairSliceScales               (* 2-tuple, multi-element, item[1] is not Ellipsis: scale[item[1]], offset[item[1]];
                                        a 0-d selection is scaled at once *)
   | GiOtherKeep.                    (* anything else: view(self.array[item], self.scale, self.offset) *)
+(* ... and what the non-int, non-slice branches return *)
+Inductive gi_values :=
+  | GiValuesPerPosition             (* multi-element and ndim(selection) < 2 and (ndim(selection) == 0 or ndim(scale) > 0):
+                                       return (selection * scale) + offset, otherwise a view *)
+  | GiValuesScalarPairOnly.         (* only a 0-d selection of the pair branch is scaled at once, everything else is a view *)
 Inductive scale_formula := ScaleMulAdd (* (value * self.scale) + self.offset *).
 Inductive unscale_formula := UnscaleSubDivRound (* np.round((value - self.offset) / self.scale) *).
 
@@ -184,12 +190,15 @@ def table(name, rows):
     return f"Definition {name} : list (string * vroute) := [\n  " + ";\n  ".join(f"({qs(d)}, {r})" for d, r in rows) + "].\n"
 
 
-def reduce_call(e, applied):
-    """np.array(self).<m>(*args, **kwargs) / self._apply_scale(self.array.<m>(*args, **kwargs)) -> 'RMax' | 'RMin'"""
+def reduce_call(e):
+    """np.array(self).<m>(*args, **kwargs) | self._apply_scale(self.array.<m>()) | self._apply_scale(self.array.<m>(*args, **kwargs))"""
     for m, c in (("max", "RMax"), ("min", "RMin")):
-        src = f"self._apply_scale(self.array.{m}(*args, **kwargs))" if applied else f"np.array(self).{m}(*args, **kwargs)"
-        if same_expr(e, src):
-            return c
+        if same_expr(e, f"np.array(self).{m}(*args, **kwargs)"):
+            return f"RedMaterialised {c}"
+        if same_expr(e, f"self._apply_scale(self.array.{m}())"):
+            return f"RedApplyGrid {c}"
+        if same_expr(e, f"self._apply_scale(self.array.{m}(*args, **kwargs))"):
+            return f"RedApplyGridArgs {c}"
     return None
 
 
@@ -198,12 +207,7 @@ def red_single(fn):
         raise Untranslatable(f"{fn.name}: parameters")
     b = body_of(fn)
     if len(b) == 1 and isinstance(b[0], ast.Return):
-        r = reduce_call(b[0].value, False)
-        if r:
-            return f"RedMaterialised {r}"
-        r = reduce_call(b[0].value, True)
-        if r:
-            return f"RedApplyGrid {r}"
+        return reduce_call(b[0].value)
     return None
 
 
@@ -387,48 +391,66 @@ def gen_views(repo):
     o.add("sav_scale", sav_scale)
 
     def sav_red():
+        """-> (multi-element, one element per point called with arguments, one element per point without argument)"""
         out = ""
         for m in ("max", "min"):
             fn = need(sav, m)
             r = red_single(fn)
             if r is not None:
-                multi, single = r, r
+                routes = (r, r, r)
             else:
                 b = body_of(fn)
                 if not (argnames(fn) == (["self"], "args", "kwargs") and len(b) == 2 and isinstance(b[0], ast.If) and not b[0].orelse
-                        and same_expr(b[0].test, "self._is_multi_element()") and len(b[0].body) == 1
-                        and isinstance(b[0].body[0], ast.Return) and isinstance(b[1], ast.Return)):
+                        and len(b[0].body) == 1 and isinstance(b[0].body[0], ast.Return) and isinstance(b[1], ast.Return)):
                     raise Untranslatable(f"ScaledArrayView.{m} shape")
-
-                def one(e):
-                    r1, r2 = reduce_call(e, False), reduce_call(e, True)
-                    if r1:
-                        return f"RedMaterialised {r1}"
-                    if r2:
-                        return f"RedApplyGrid {r2}"
-                    raise Untranslatable(f"ScaledArrayView.{m}: {ast.unparse(e)}")
-                multi, single = one(b[0].body[0].value), one(b[1].value)
-            out += f"Definition sav_{m} : red_route * red_route := ({multi}, {single}).   (* (multi-element, one element per point) *)\n"
+                first, second = reduce_call(b[0].body[0].value), reduce_call(b[1].value)
+                if first is None or second is None:
+                    raise Untranslatable(f"ScaledArrayView.{m}: unknown reduction expression")
+                if same_expr(b[0].test, "self._is_multi_element() or args or kwargs"):
+                    routes = (first, first, second)
+                elif same_expr(b[0].test, "self._is_multi_element()"):
+                    routes = (first, second, second)
+                else:
+                    raise Untranslatable(f"ScaledArrayView.{m}: test {ast.unparse(b[0].test)}")
+            out += (f"Definition sav_{m} : red_route * red_route * red_route := ({routes[0]}, {routes[1]}, {routes[2]}).\n"
+                    "   (* (multi-element, one element per point with arguments, one element per point without) *)\n")
         return out
     o.add("sav_max_min", sav_red)
 
     def sav_getitem():
         fn = need(sav, "__getitem__")
-        if argnames(fn) != (["self", "item"], None, None) or not same_stmts(body_of(fn), (
-                "if isinstance(item, int):\n"
+        head = ("if isinstance(item, int):\n"
                 "    return self._apply_scale(self.array[item])\n"
                 "elif isinstance(item, slice):\n"
                 "    return self.__class__(self.array[item], self.scale, self.offset)\n"
                 "else:\n"
-                "    sliced_array = self.array[item]\n"
-                "    if (isinstance(item, tuple) and len(item) == 2 and self._is_multi_element() and item[1] is not Ellipsis):\n"
-                "        scale, offset = self.scale[item[1]], self.offset[item[1]]\n"
-                "        if np.ndim(sliced_array) == 0:\n"
-                "            return (sliced_array * scale) + offset\n"
-                "        return self.__class__(sliced_array, scale, offset)\n"
-                "    return self.__class__(sliced_array, self.scale, self.offset)\n")):
+                "    sliced_array = self.array[item]\n")
+        pair = "isinstance(item, tuple) and len(item) == 2 and self._is_multi_element() and item[1] is not Ellipsis"
+        new_shape = (head +
+                     f"    if ({pair}):\n"
+                     "        scale, offset = self.scale[item[1]], self.offset[item[1]]\n"
+                     "    else:\n"
+                     "        scale, offset = self.scale, self.offset\n"
+                     "    if (self._is_multi_element() and np.ndim(sliced_array) < 2 and (np.ndim(sliced_array) == 0 or np.ndim(scale) > 0)):\n"
+                     "        return (sliced_array * scale) + offset\n"
+                     "    return self.__class__(sliced_array, scale, offset)\n")
+        old_shape = (head +
+                     f"    if ({pair}):\n"
+                     "        scale, offset = self.scale[item[1]], self.offset[item[1]]\n"
+                     "        if np.ndim(sliced_array) == 0:\n"
+                     "            return (sliced_array * scale) + offset\n"
+                     "        return self.__class__(sliced_array, scale, offset)\n"
+                     "    return self.__class__(sliced_array, self.scale, self.offset)\n")
+        if argnames(fn) != (["self", "item"], None, None):
+            raise Untranslatable("ScaledArrayView.__getitem__ parameters")
+        if same_stmts(body_of(fn), new_shape):
+            values = "GiValuesPerPosition"
+        elif same_stmts(body_of(fn), old_shape):
+            values = "GiValuesScalarPairOnly"
+        else:
             raise Untranslatable("ScaledArrayView.__getitem__ shape")
-        return "Definition sav_getitem : list gi_branch := [GiIntApply; GiSliceKeep; GiPairSliceScales; GiOtherKeep].\n"
+        return ("Definition sav_getitem : list gi_branch := [GiIntApply; GiSliceKeep; GiPairSliceScales; GiOtherKeep].\n"
+                f"Definition sav_getitem_values : gi_values := {values}.\n")
     o.add("sav_getitem", sav_getitem)
     return o
 
